@@ -162,6 +162,11 @@ pub fn c03(args: &Args) -> Acc {
                 }
             };
             sa.keep_touched = true;
+            // now and then the panel sleeps while it is drawn to (frame memory stays writable)
+            let asleep = idx % 9 == 4;
+            if asleep {
+                let _ = sa.step(&Op::Sleep);
+            }
             let ra = sa.step(&prog[0]);
             let mut bad = false;
             for f in &ra.findings {
@@ -176,6 +181,9 @@ pub fn c03(args: &Args) -> Acc {
                 Opened::Failed { .. } => return,
             };
             sb.keep_touched = true;
+            if asleep {
+                let _ = sb.step(&Op::Sleep);
+            }
             for (x, y, c) in &px {
                 let rb = sb.step(&Op::SetPixel { x: *x as u16, y: *y as u16, c: *c });
                 if rb.result != CallResult::Ok {
